@@ -32,6 +32,7 @@ def main():
     ap.add_argument('--alt', action='store_true')
     ap.add_argument('--tier', default='quick')
     ap.add_argument('--keep', action='store_true')
+    ap.add_argument('--in-repo', action='store_true')
     ap.add_argument('--also', default='', help='comma separated other property ids whose quick check is run too')
     a = ap.parse_args()
     wt = a.worktree
@@ -71,25 +72,37 @@ def main():
             sh('git apply %s' % mp, cwd=wt)
     ok = '111 passed' in report['tests_with_patch'] and rc1 == 1 and rc0 == 0
     report['confirmed'] = ok
-    # run our checks against /repo with the patch applied
-    rc, out = sh('git status --porcelain -- desper', cwd='/repo')
-    assert not out.strip(), '/repo is dirty: ' + out
-    rc, out = sh('git apply %s' % pf, cwd='/repo')
-    assert rc == 0, 'patch does not apply to /repo: ' + out
+    # run our checks against the worktree with the patch applied (DESPER_REPO), evidence to a scratch directory;
+    # --in-repo applies the patch to /repo itself instead and restores it afterwards
     checks = {}
+    tiers = ['quick', 'thorough'] if a.tier == 'both' else [a.tier]
+    if a.in_repo:
+        rc, out = sh('git status --porcelain -- desper', cwd='/repo')
+        assert not out.strip(), '/repo is dirty: ' + out
+        rc, out = sh('git apply %s' % pf, cwd='/repo')
+        assert rc == 0, 'patch does not apply to /repo: ' + out
+        env = 'VERIF_EVIDENCE_DIR=/tmp/seed-evidence '
+    else:
+        if main_patch.strip():
+            sh('git apply -R %s' % mp, cwd=wt)
+        rc, out = sh('git apply %s' % pf, cwd=wt)
+        assert rc == 0, out
+        env = 'VERIF_EVIDENCE_DIR=/tmp/seed-evidence DESPER_REPO=%s ' % wt
     try:
-        tiers = ['quick', 'thorough'] if a.tier == 'both' else [a.tier]
         for p in [pid] + [x for x in a.also.split(',') if x]:
             for t in tiers:
-                rc, out = sh('bin/check %s --tier %s' % (p, t), cwd=VERIF)
+                rc, out = sh(env + 'bin/check %s --tier %s' % (p, t), cwd=VERIF)
                 lines = [l for l in out.splitlines() if l.startswith(('VIOLATION', 'HARNESS-ERROR', 'counterexample', p + ' '))]
                 checks['%s/%s' % (p, t)] = dict(exit=rc, lines=lines[:4])
                 if rc == 1:
                     break
     finally:
-        rc, out = sh('git checkout -- .', cwd='/repo')
-        # restore evidence written while /repo was mutated
-        sh('git checkout -- evidence', cwd=VERIF)
+        if a.in_repo:
+            sh('git checkout -- .', cwd='/repo')
+        else:
+            sh('git apply -R %s' % pf, cwd=wt)
+            if main_patch.strip():
+                sh('git apply %s' % mp, cwd=wt)
     report['checks'] = checks
     print(json.dumps(report, indent=1))
     if a.keep:
